@@ -423,6 +423,45 @@ def gen_smiles(rng, ctx):
     return None, rng.choice(SMILES_BAD)
 
 
+_BRACKET = re.compile(r"\[([=#/\\\\]?)(\d*)([A-Za-z][a-z]?)(@{0,2})(H\d*)?([+-]\d*)?(:\d+)?\]")
+
+
+def near_duplicate(rng, text, selfies):
+    """``text`` with one bracket atom changed in one attribute (isotope, H count, chirality mark,
+    charge, atom class, SELFIES bond prefix); an unbracketed SMILES gets one atom bracketed."""
+    ms = [m for m in _BRACKET.finditer(text) if not (selfies and (m.group(3) in ("Ring", "Branch", "nop")
+                                                                 or "Ring" in m.group(0) or "Branch" in m.group(0)))]
+    if not ms:
+        if selfies:
+            return text
+        i = text.find("C")
+        if i < 0 or text[i:i + 2] == "Cl":
+            return text
+        return text[:i] + rng.choice(("[13C]", "[C:1]", "[CH2]", "[C@@]", "[C+]")) + text[i + 1:]
+    m = rng.choice(ms)
+    pre, iso, el, chi, h, ch, cls = (m.group(i) or "" for i in range(1, 8))
+    what = rng.choice(("iso", "iso", "h", "chi", "charge", "class", "prefix"))
+    if what == "iso":
+        iso = rng.choice(("13", "14", "2", "1", "")) if iso else rng.choice(("13", "14", "2"))
+    elif what == "h":
+        if selfies:
+            h = rng.choice(("H1", "H2", "H3", "")) if h else rng.choice(("H1", "H2"))
+        else:
+            h = rng.choice(("H", "H2", "H3", "H0", "")) if h else rng.choice(("H", "H2"))
+    elif what == "chi":
+        chi = {"": "@", "@": "@@", "@@": "@"}[chi]
+    elif what == "charge":
+        if selfies:
+            ch = rng.choice(("+1", "-1", "+2", "")) if ch else rng.choice(("+1", "-1"))
+        else:
+            ch = rng.choice(("+", "-", "+1", "-1", "++", "+2", "")) if ch else rng.choice(("+", "-", "+1"))
+    elif what == "class" and not selfies:
+        cls = rng.choice((":1", ":2", ":12", ""))
+    else:
+        pre = rng.choice(("", "=", "#")) if selfies else pre
+    return text[:m.start()] + "[" + pre + iso + el + chi + h + ch + cls + "]" + text[m.end():]
+
+
 def derive_failing_smiles(rng):
     """A sound SMILES damaged in one place: ring-closure ends that disagree on the bond symbol (every
     pair of different symbols, directional ones included), a ring left open, an unbalanced or empty
@@ -732,8 +771,15 @@ class _GenState:
                 op = dict(rng.choice(self.all_calls[-12:]))
                 op.pop("same_as", None)        # the relation holds next to the original, under one table
                 u = rng.random()
-                if u < 0.35:
+                if u < 0.3:
                     pass
+                elif u < 0.45:
+                    # nearly the same call: one atom differs in isotope, hydrogen count, chirality mark,
+                    # charge, atom class or bond prefix - whatever is memoised per symbol or per string
+                    # must tell the two apart
+                    f = "x" if op["op"] == "decode" else "s"
+                    op[f] = near_duplicate(rng, op[f], selfies=(f == "x"))
+                    op.pop("gt", None)
                 elif op["op"] == "decode":
                     flag = rng.choice(("compatible", "compatible", "attribute"))
                     op[flag] = not op[flag]
